@@ -138,6 +138,63 @@ def renumber_slides(data, rng):
     return out.getvalue()
 
 
+def irregular_variants(rng):
+    """decks in states the API does not produce but the package format allows, built from a generated deck:
+    (label, bytes).  A slide part kept alive only by a slide-jump from another slide (neither in the slide-id list nor
+    related from the presentation part); a notes master related from its notes slide only."""
+    import re
+    from pptx import Presentation
+    from pptx.enum.shapes import MSO_SHAPE
+    from harness.props.c09 import build_deck
+
+    out = []
+    # -- orphan slide reachable through a click action only
+    prs = build_deck()
+    for _ in range(2):
+        prs.slides.add_slide(prs.slide_layouts[6]).shapes.add_textbox(0, 0, 9, 9).text_frame.text = "x"
+    sl = list(prs.slides)
+    victim = rng.randrange(1, len(sl) - 1)            # its number lies inside 1..N of the remaining slides
+    src = sl[0]
+    src.shapes.add_shape(MSO_SHAPE.RECTANGLE, 0, 0, 9, 9).click_action.target_slide = sl[victim]
+    lst = prs.part._element.sldIdLst
+    sld = lst[victim]
+    rid = sld.rId
+    lst.remove(sld)
+    prs.part.drop_rel(rid) if hasattr(prs.part, "drop_rel") else None
+    if rid in prs.part.rels:
+        prs.part.rels.pop(rid)
+    b = io.BytesIO(); prs.save(b)
+    out.append(("generated-deck(slide reachable through a slide jump only)", b.getvalue()))
+    # -- notes master related from the notes slide only
+    prs = build_deck()
+    b = io.BytesIO(); prs.save(b)
+    z = zipfile.ZipFile(io.BytesIO(b.getvalue()))
+    o = io.BytesIO()
+    with zipfile.ZipFile(o, "w", zipfile.ZIP_DEFLATED) as zo:
+        for n in z.namelist():
+            data = z.read(n)
+            if n == "ppt/_rels/presentation.xml.rels":
+                t = data.decode("utf-8")
+                m = re.search(r'<Relationship [^>]*notesMaster[^>]*/>', t)
+                rid = re.search(r'Id="(rId\d+)"', m.group(0)).group(1) if m else None
+                if m:
+                    t = t.replace(m.group(0), "")
+                data = t.encode("utf-8")
+                drop = rid
+            zo.writestr(n, data)
+    # the presentation part names the relationship in p:notesMasterIdLst: remove that too
+    z2 = zipfile.ZipFile(io.BytesIO(o.getvalue()))
+    o2 = io.BytesIO()
+    with zipfile.ZipFile(o2, "w", zipfile.ZIP_DEFLATED) as zo:
+        for n in z2.namelist():
+            data = z2.read(n)
+            if n == "ppt/presentation.xml":
+                data = re.sub(rb"<p:notesMasterIdLst>.*?</p:notesMasterIdLst>", b"", data, flags=re.S)
+            zo.writestr(n, data)
+    out.append(("generated-deck(notes master related from its notes slide only)", o2.getvalue()))
+    return out
+
+
 class Observer:
     """wraps every access; records the effect of each accessor"""
 
@@ -262,6 +319,19 @@ def translate(ctx):
 
 
 # ------------------------------------------------------------------------------------------------ saved files
+def content_types(data):
+    """-> function member name -> content type, from [Content_Types].xml"""
+    z = zipfile.ZipFile(io.BytesIO(data))
+    root = etree.fromstring(z.read("[Content_Types].xml"))
+    ov, df = {}, {}
+    for e in root:
+        if e.tag.endswith("}Override"):
+            ov[e.get("PartName").lstrip("/").lower()] = e.get("ContentType")
+        elif e.tag.endswith("}Default"):
+            df[e.get("Extension").lower()] = e.get("ContentType")
+    return lambda m: ov.get(m.lower(), df.get(m.rsplit(".", 1)[-1].lower()))
+
+
 def read_package(data):
     """-> {relationship path: (member name, bytes)} by walking .rels files from the package root"""
     z = zipfile.ZipFile(io.BytesIO(data))
@@ -316,6 +386,9 @@ def traverse_and_save(deck_bytes, rng, ctx):
             getattr(obj, name)
         return v
 
+    if rng.random() < 0.5:
+        prs.save(io.BytesIO())         # a checkpoint save before anything has been read
+        ctx.count("checkpoint-save-before-reading")
     rounds = rng.choice([1, 1, 2])
     for r in range(rounds):
         R.traverse(prs, access, rng, max_objects=1500 if ctx.quick else 5000, skip=frozenset(R.DOCUMENTED_CREATORS | known_mutators()))
@@ -341,6 +414,11 @@ def end_to_end(ctx, label, data, lines, metas):
         dup = sorted(n for n in set(names) if names.count(n) > 1)
         ctx.fail("e2e:duplicate-member", f"{label}: the deck saved after reading has duplicate zip members {dup[:4]}", {"deck": label})
     pb = read_package(saved)
+    cta, ctb = content_types(a.getvalue()), content_types(saved)
+    for k in sorted(set(pa) & set(pb)):
+        if cta(pa[k][0]) != ctb(pb[k][0]):
+            ctx.fail("e2e:content-type", f"{label}: {pa[k][0]} is typed {cta(pa[k][0])!r} in the straight save, {pb[k][0]} {ctb(pb[k][0])!r} after reading", {"deck": label})
+            break
     T = schemagen.tables()
     roots, inner = container_ids()
     case = {"deck": label}
@@ -412,6 +490,13 @@ def correspond(ctx):
         if rd is not None:
             end_to_end(ctx, f"generated-deck(slides renumbered#{k})", rd, lines, metas)
             ctx.count("renumbered-decks")
+    for lab, data in irregular_variants(rng):
+        try:
+            end_to_end(ctx, lab, data, lines, metas)
+            ctx.count("irregular-input-decks")
+        except Exception as e:  # noqa
+            ctx.count(f"e2e-aborted:{type(e).__name__}")
+            ctx.note(f"end-to-end on {lab} aborted: {type(e).__name__}: {str(e)[:160]}")
     for d in decks_for(ctx.quick, random.Random(f"c12-{ctx.seed}"))[: (6 if ctx.quick else 100)]:
         try:
             end_to_end(ctx, d.name, d.read_bytes(), lines, metas)
